@@ -245,6 +245,62 @@ def run(ctx):
     check_index_maps(ctx, "R9", ["writer_conventions"])
 
 
+def molden_reader_pure(prog, tag_lines, tags_last=False):
+    """Which angular momenta (2..5) the Molden reader makes pure for the given tag lines: `_load_low` interpreted on a
+    model stream -- header, the tag lines (before the sections, or after them), `[Atoms]`, `[GTO]`, `[MO]` -- with the
+    three section readers replaced by model values: shells s, p, d, f, g, h (all Cartesian until a tag says otherwise)
+    and one orbital with as many coefficients as the basis has functions *if the tags are read as `expect_pure`*.
+    -> set of pure l, or the name of the exception raised."""
+    import numpy as np
+
+    from ..accessors import AccessorEval, Raised, Rec
+    from ..symarr import NotSymbolic
+
+    lo = prog.func("iodata.formats.molden._load_low")
+    licls = prog.cls("iodata.utils.LineIterator")
+    shcls = prog.cls("iodata.basis.Shell")
+    mbcls = prog.cls("iodata.basis.MolecularBasis")
+
+    def run(expect_pure):
+        shells = [Rec(shcls, icenter=0, angmoms=np.array([l]), kinds=["c"], exponents=np.array([1.0]), coeffs=np.array([[1.0]])) for l in range(6)]
+        obasis = Rec(mbcls, shells=shells, conventions={}, primitive_normalization="L2")
+        nb = sum((2 * l + 1) if l in expect_pure else (l + 1) * (l + 2) // 2 for l in range(6))
+        alpha = (np.array([1.0]), np.zeros((nb, 1)), np.array([0.0]), ["a"])
+        sections = ["[Atoms] AU\n", "[GTO]\n", "[MO]\n"]
+        lines = ["[Molden Format]\n"] + (sections + list(tag_lines) if tags_last else list(tag_lines) + sections)
+        lit = Rec(licls, filename="F", fh=iter(lines), lineno=0, stack=[])
+        ev = AccessorEval(prog, licls, limit=8000)
+        ev.module = lo.module
+        ev.stubs = {
+            "iodata.formats.molden._load_helper_atoms": lambda a, k: (np.array([1]), np.array([1.0]), np.zeros((1, 3))),
+            "iodata.formats.molden._load_helper_obasis": lambda a, k: obasis,
+            "iodata.formats.molden._load_helper_coeffs": lambda a, k: (alpha, (None, None, None, None)),
+        }
+        for q in ev.stubs:
+            if q not in prog.funcs:
+                raise AnalysisError(f"{q} not found (section reader of the Molden loader)")
+        try:
+            res = ev.run_free(lo, [lit], {})
+        except Raised as exc:
+            return exc.args[0]
+        except NotSymbolic as exc:
+            raise AnalysisError(f"molden._load_low is outside the evaluation whitelist: {exc}") from exc
+        ob = res.get("obasis") if isinstance(res, dict) else None
+        if not isinstance(ob, Rec):
+            raise AnalysisError("molden._load_low: no basis in the result of the model evaluation")
+        return {int(np.asarray(sh.fields["angmoms"]).ravel()[0]) for sh in ob.fields["shells"] if list(sh.fields["kinds"])[0] == "p"}
+
+    # the number of coefficients must fit the kinds the reader derives: try the candidates, the consistent one wins
+    import itertools
+
+    for r in range(0, 5):
+        for cand in itertools.combinations((2, 3, 4, 5), r):
+            got = run(set(cand))
+            if isinstance(got, set) and got == set(cand):
+                return got
+    return run(set())
+
+
 def check_molden_tags(ctx, ce):
     """R8: the Molden writer's pure/Cartesian tags mean, to the Molden reader, the kinds that were written.
 
@@ -270,23 +326,8 @@ def check_molden_tags(ctx, ce):
             if isinstance(x, ast.Subscript) and isinstance(x.value, ast.Name) and x.value.id in dict_locals:
                 kv = x.value.id
     fparam = do.posparams[0]
-    # reader: the if-chain whose tests mention the tags
-    rchain = None
-    for n in lo.own_nodes():
-        if isinstance(n, ast.If) and any(isinstance(x, ast.Constant) and isinstance(x.value, str) and tagre.match(x.value) for x in ast.walk(n.test)):
-            par = prog.parents(lo).get(id(n))
-            if not (isinstance(par, ast.If) and n in par.orelse):
-                rchain = n
-    if not wst or kv is None or rchain is None:
-        ctx.violate("R8", "cannot find the tag-writing statements of molden.dump_one / the tag branch of molden._load_low", do, do.node, construct="molden tag code")
-        return
-    line_var = next((x.id for x in ast.walk(rchain.test) if isinstance(x, ast.Name) and x.id not in ("str",)), None)
-    set_var = None
-    for x in ast.walk(rchain):
-        if isinstance(x, ast.Call) and isinstance(x.func, ast.Attribute) and x.func.attr in ("add", "update") and isinstance(x.func.value, ast.Name):
-            set_var = x.func.value.id
-    if line_var is None or set_var is None:
-        ctx.violate("R8", "tag branch of the Molden reader has an unexpected shape", lo, rchain, construct="molden reader tag chain")
+    if not wst or kv is None:
+        ctx.violate("R8", "cannot find the tag-writing statements of molden.dump_one", do, do.node, construct="molden tag code")
         return
     # how the reader normalises a line before the chain
     bad = []
@@ -300,14 +341,11 @@ def check_molden_tags(ctx, ce):
         except NotConstant as exc:
             raise AnalysisError(f"molden tag writer is outside the constant-evaluation whitelist: {exc}") from exc
         lines = [ln for ln in "".join(sink.text).split("\n") if ln.strip()]
-        got = set()
         unknown = []
-        for ln in lines:
-            renv = _Env(ce, lo.module, lo, {line_var: ln.lower().strip(), set_var: got})
-            try:
-                renv.run([rchain])
-            except NotConstant:
-                unknown.append(ln)
+        got = molden_reader_pure(prog, [ln + "\n" for ln in lines])
+        if not isinstance(got, set):
+            unknown = [f"the reader raises {got}"]
+            got = set()
         got = {l for l in got if l in (2, 3, 4)}
         n += 1
         if unknown or got != want:
@@ -334,59 +372,24 @@ def check_molden_reader_tags(ctx, ce, rid):
 
     prog = ctx.prog
     lo = prog.func("iodata.formats.molden._load_low")
-    tagre = re.compile(r"\[\d+[dfg]", re.I)
-    rchain = None
-    for n in lo.own_nodes():
-        if isinstance(n, ast.If) and any(isinstance(x, ast.Constant) and isinstance(x.value, str) and tagre.match(x.value) for x in ast.walk(n.test)):
-            par = prog.parents(lo).get(id(n))
-            if not (isinstance(par, ast.If) and n in par.orelse):
-                rchain = n
-    if rchain is None:
-        raise AnalysisError("tag branch of molden._load_low not found")
-    line_var = next((x.id for x in ast.walk(rchain.test) if isinstance(x, ast.Name) and x.id not in ("str",)), None)
-    set_var = None
-    for x in ast.walk(rchain):
-        if isinstance(x, ast.Call) and isinstance(x.func, ast.Attribute) and x.func.attr in ("add", "update") and isinstance(x.func.value, ast.Name):
-            set_var = x.func.value.id
-    if line_var is None or set_var is None:
-        raise AnalysisError("tag branch of the Molden reader has an unexpected shape")
-    # how the loop normalises the line before the chain (e.g. next(lit).lower().strip()): evaluated on the raw line
-    norm = None
-    for n in lo.own_nodes():
-        if isinstance(n, ast.Assign) and len(n.targets) == 1 and isinstance(n.targets[0], ast.Name) and n.targets[0].id == line_var:
-            if any(isinstance(x, ast.Call) and isinstance(x.func, ast.Name) and x.func.id == "next" for x in ast.walk(n.value)):
-                norm = n.value
+    rchain = lo.node
     bad = []
     n_ok = 0
     for tag, want in MOLDEN_TAG_MEANING.items():
         for raw in (tag, tag.lower(), tag + "  ", " " + tag):
-            text = raw
-            if norm is not None:
-                class _Sub(ast.NodeTransformer):
-                    def visit_Call(self, node):
-                        if isinstance(node.func, ast.Name) and node.func.id == "next":
-                            return ast.Constant(raw + "\n")
-                        return self.generic_visit(node)
-                import copy as _copy
-
-                expr = ast.fix_missing_locations(_Sub().visit(_copy.deepcopy(norm)))
-                try:
-                    text = _Env(ce, lo.module, lo, {}).eval(expr)
-                except NotConstant as exc:
-                    raise AnalysisError(f"line normalisation of the Molden section loop is not constant-evaluable: {exc}") from exc
-            got = set()
-            try:
-                _Env(ce, lo.module, lo, {line_var: text, set_var: got}).run([rchain])
-            except NotConstant as exc:
-                bad.append((raw, f"not recognised as a tag ({exc})"))
-                continue
-            got = {l for l in got if l in (2, 3, 4)}
-            if got != want:
-                bad.append((raw, f"marks l = {sorted(got)} as pure, the format says {sorted(want)}"))
-            else:
-                n_ok += 1
+            for last in (False, True):
+                got = molden_reader_pure(prog, [raw + "\n"], tags_last=last)
+                where = " after the sections" if last else ""
+                if not isinstance(got, set):
+                    bad.append((raw, f"given{where}: the reader raises {got}"))
+                    continue
+                got = {l for l in got if l in (2, 3, 4)}
+                if got != want:
+                    bad.append((raw, f"given{where}: marks l = {sorted(got)} as pure, the format says {sorted(want)}"))
+                else:
+                    n_ok += 1
     if bad:
         raw, why = bad[0]
         ctx.violate(rid, f"Molden tag line {raw!r}: {why} ({len(bad)} tag spelling(s) differ)", lo, rchain, construct=f"molden reader tag {raw.strip()!r}: {why}"[:160])
     else:
-        ctx.ok(rid, f"{n_ok} tag lines ([5D], [5D7F], [5D10F], [7F], [9G] in {n_ok // len(MOLDEN_TAG_MEANING)} spellings each) are read with the meaning the format gives them", f"{lo.module.relpath}:{rchain.lineno}")
+        ctx.ok(rid, f"{n_ok} evaluations ([5D], [5D7F], [5D10F], [7F], [9G] in four spellings, before and after the sections): the loader makes exactly the shells pure that the format assigns to the tag", f"{lo.module.relpath}:{lo.lineno}")
